@@ -180,7 +180,7 @@ static void spherical(unsigned long long& unit)
 			nx /= nn; ny /= nn; nz /= nn;
 			Vector axis({A[ai].x * len, A[ai].y * len, A[ai].z * len});
 			bool plusz = A[ai].x == 0 && A[ai].y == 0 && A[ai].z > 0;
-			for(double r : {1e-3, 1.0, 1e3})
+			for(double r : {1e-3, 1.0, 1e3, 1e-6, 1e6})
 				for(double th : thetas)
 				{
 					std::vector<std::vector<double>> ring;
